@@ -66,13 +66,17 @@ def check (j : Json) : Except String Verdict := do
     let mdj ← obs.getObjVal? "meta"
     let reqs ← jArr obs "reqs"
     let bad := reqs.toList.filter (fun r => jStrD r "nodeId" "" != nodeId || (r.getObjVal? "meta").toOption != some mdj)
+    let onNew := reqs.toList.filter (fun r => jNatD r "sid" 1 ≥ 2)
     return { nontrivial := true
-             specfail := if bad.isEmpty && !reqs.isEmpty then none else some "C20.node_on_every_request: a request does not carry the node identity/metadata" }
+             specfail := if !bad.isEmpty then some s!"C20.node_on_every_request: request number {(reqs.toList.findIdx? (fun r => jStrD r "nodeId" "" != nodeId || (r.getObjVal? "meta").toOption != some mdj)).getD 0 + 1} of {reqs.size} (stream {jNatD (bad.head!) "sid" 1}, type {jStrD (bad.head!) "rt" "?"}) does not carry the node identity/metadata"
+                         else if reqs.isEmpty then some "C20.node_on_every_request: no request was sent"
+                         else if onNew.length < 3 then some s!"C20.node_on_every_request: the scenario did not reach the re-subscription on a second stream ({onNew.length} requests there)"
+                         else none }
   | "singleton" =>
     let mode ← jStr j "mode"
     let res ← jStr obs "result"
     let want := match mode with
-      | "init-missing" => "panic=false err=true inited=false"
+      | "init-missing" => "panic=false err=true inited=false again: panic=false err=true inited=false again: panic=false err=true inited=false"
       | "set-twice" => "set1=true set2=true used=first init=true inited=true"
       | _ => "?"
     return { nontrivial := true
